@@ -564,15 +564,29 @@ func ruleWindowRetention(c *Check, p *Program, rule string) {
 	}
 	var app ssa.Instruction
 	var trims []*ssa.Store
-	allInstrs(fn, func(in ssa.Instruction) {
+	var appArgs []ssa.Value
+	allInstrsDeep(fn, func(in ssa.Instruction) {
 		st, ok := in.(*ssa.Store)
 		if !ok || lastField(st.Addr) != "Reader.dict" {
 			return
 		}
 		if call, isC := st.Val.(*ssa.Call); isC {
 			if b, isB := call.Call.Value.(*ssa.Builtin); isB && b.Name() == "append" {
-				app = in
+				app, appArgs = in, call.Call.Args
 				return
+			}
+			// a helper that is handed the dictionary and the block and returns the new dictionary
+			if f := staticCallee(call); inModule(f) {
+				usesAppend := false
+				allInstrsDeep(f, func(j ssa.Instruction) {
+					if _, isApp := isBuiltinCall(j, "append"); isApp {
+						usesAppend = true
+					}
+				})
+				if usesAppend {
+					app, appArgs = in, call.Call.Args
+					return
+				}
 			}
 		}
 		trims = append(trims, st)
@@ -582,14 +596,20 @@ func ruleWindowRetention(c *Check, p *Program, rule string) {
 		return
 	}
 	c.Sites++
-	// append(r.dict, dst...) with dst the decoded block
-	call := app.(*ssa.Store).Val.(*ssa.Call)
+	// the dictionary and the decoded block are the operands
 	var dst ssa.Value
-	okApp := loadField(call.Call.Args[0]) == "Reader.dict" && len(call.Call.Args) == 2
-	if okApp {
-		dst = call.Call.Args[1]
-		okApp = derivesFromCall(dst, func(f *ssa.Function) bool { return f.Name() == "Uncompress" && recvTypeName(f) == "FrameDataBlock" })
+	hasDict, hasBlock := false, false
+	for _, arg := range appArgs {
+		if loadField(arg) == "Reader.dict" {
+			hasDict = true
+		}
+		if derivesFromCall(arg, func(f *ssa.Function) bool { return f.Name() == "Uncompress" && recvTypeName(f) == "FrameDataBlock" }) {
+			hasBlock = true
+			dst = arg
+		}
 	}
+	_ = dst
+	okApp := hasDict && hasBlock
 	got := relAtoms(app.Block(), nil)
 	c.Cond(okApp && sameSet(got, []string{"!flag:BlockIndependence"}), rule, "Reader.read#window-append", p.InstrPos(app), "for dependent frames, and only governed by that flag (so raw blocks count too), the whole decoded block is appended to the dictionary", "r.dict = append(r.dict, dst...) under {!flag:BlockIndependence}", fmt.Sprintf("appends the decoded block to r.dict: %v; guards {%s}", okApp, strings.Join(got, ", ")))
 	_ = trims // the trim itself is decided numerically by ruleWindowNumeric
